@@ -1042,7 +1042,8 @@ def _val_to_numpy(
             arrow,
             pa.ChunkedArray,
         )
-    except TypeError:
+    except (TypeError, pa.ArrowInvalid):
+        # e.g. a pandas string Series whose first entry is missing cannot be type-inferred by Arrow
         is_chunked = False
 
     if is_chunked:
